@@ -358,46 +358,56 @@ def suitableRegForMemMove (a : Arch) (dt st : Nat) : Option Nat :=
   else if maxSize ≤ 64 && hasRegType a 13 then some 13
   else none
 
-/-- first loop of `init_work_data`: one (src, dst) value pair; `varId` = index of the variable being created -/
-def initVar (a : Arch) (c : Ctx) (reassign : Nat) (src dst : FuncValue) : Except String (Ctx × Nat) :=
+/-- a register destination without a TypeId gets the register's TypeId -/
+def patchRegDst (dst : FuncValue) : FuncValue :=
+  if dst.typeId = 0 then { dst with typeId := typeIdOfReg dst.regType } else dst
+
+/-- destination half of one (src, dst) pair of the first loop of `init_work_data`:
+    (context, patched dst, dst group (15 = kMaxValue), dst id) -/
+def initDst (a : Arch) (c : Ctx) (src dst : FuncValue) : Except String (Ctx × FuncValue × Nat × Nat) :=
+  if dst.isReg then
+    if !hasRegType a dst.regType then .error "InvalidRegType" else
+    let dst := patchRegDst dst
+    let g := groupOf dst.regType
+    if g > 3 then .error "InvalidRegGroup" else
+    let w := c.w g
+    if dst.regId ≥ 32 || !bit w.archRegs dst.regId then .error "InvalidPhysId" else
+    if bit w.dstRegs dst.regId then .error "OverlappedRegs" else
+    .ok (c.setW g { w with dstRegs := w.dstRegs ||| (1 <<< dst.regId) }, dst, g, dst.regId)
+  else
+    let dst := if dst.typeId = 0 then { dst with typeId := src.typeId } else dst
+    match suitableRegForMemMove a dst.typeId src.typeId with
+    | none => .error "InvalidState"
+    | some rt => .ok ({ c with stackDstMask := c.stackDstMask ||| (1 <<< groupOf rt) }, dst, 15, 255)
+
+/-- `dst_id == src_id` case: done unless both are GP and the destination type is wider -/
+def doneAtInit (src dst : FuncValue) (dg did : Nat) : Bool :=
+  did = src.regId && (dg ≠ 0 || (dst.typeId = 0 || src.typeId = 0 || tySize dst.typeId ≤ tySize src.typeId))
+
+/-- source half (the variable is created here); `varId` = index of the variable being created -/
+def initSrc (c : Ctx) (reassign : Nat) (src dst : FuncValue) (dg did : Nat) : Except String (Ctx × Nat) :=
   let varId := c.vars.length
+  let var : Var := { cur := src, out := dst, outInit := true }
+  if src.isReg then
+    let sg := groupOf src.regType
+    if dg = sg then
+      let c := c.setW dg ((c.w dg).assign varId src.regId)
+      let reassign := reassign ||| ((if did ≠ src.regId then 1 else 0) <<< dg)
+      .ok ({ c with vars := c.vars ++ [{ var with done := doneAtInit src dst dg did }] }, reassign)
+    else
+      if sg > 3 then .error "InvalidState" else
+      let c := c.setW sg ((c.w sg).assign varId src.regId)
+      .ok ({ c with vars := c.vars ++ [var] }, reassign ||| (1 <<< dg))
+  else
+    .ok ({ c with vars := c.vars ++ [var], hasStackSrc := true }, reassign)
+
+/-- first loop of `init_work_data`: one (src, dst) value pair -/
+def initVar (a : Arch) (c : Ctx) (reassign : Nat) (src dst : FuncValue) : Except String (Ctx × Nat) :=
   if !src.isAssigned then .error "InvalidState" else
   if src.isIndirect then .error "InvalidAssignment" else
-  -- destination
-  let r1 : Except String (Ctx × FuncValue × Nat × Nat) :=     -- ctx, patched dst, dst group (15 = kMaxValue), dst id
-    if dst.isReg then
-      if !hasRegType a dst.regType then .error "InvalidRegType" else
-      let dst := if dst.typeId = 0 then { dst with typeId := typeIdOfReg dst.regType } else dst
-      let g := groupOf dst.regType
-      if g > 3 then .error "InvalidRegGroup" else
-      let w := c.w g
-      if dst.regId ≥ 32 || !bit w.archRegs dst.regId then .error "InvalidPhysId" else
-      if bit w.dstRegs dst.regId then .error "OverlappedRegs" else
-      .ok (c.setW g { w with dstRegs := w.dstRegs ||| (1 <<< dst.regId) }, dst, g, dst.regId)
-    else
-      let dst := if dst.typeId = 0 then { dst with typeId := src.typeId } else dst
-      match suitableRegForMemMove a dst.typeId src.typeId with
-      | none => .error "InvalidState"
-      | some rt => .ok ({ c with stackDstMask := c.stackDstMask ||| (1 <<< groupOf rt) }, dst, 15, 255)
-  match r1 with
+  match initDst a c src dst with
   | .error e => .error e
-  | .ok (c, dst, dg, did) =>
-    let var : Var := { cur := src, out := dst, outInit := true }
-    if src.isReg then
-      let sg := groupOf src.regType
-      if dg = sg then
-        let c := c.setW dg ((c.w dg).assign varId src.regId)
-        let reassign := reassign ||| ((if did ≠ src.regId then 1 else 0) <<< dg)
-        let done :=
-          did = src.regId &&
-            (dg ≠ 0 || (dst.typeId = 0 || src.typeId = 0 || tySize dst.typeId ≤ tySize src.typeId))
-        .ok ({ c with vars := c.vars ++ [{ var with done := done }] }, reassign)
-      else
-        if sg > 3 then .error "InvalidState" else
-        let c := c.setW sg ((c.w sg).assign varId src.regId)
-        .ok ({ c with vars := c.vars ++ [var] }, reassign ||| (1 <<< dg))
-    else
-      .ok ({ c with vars := c.vars ++ [var], hasStackSrc := true }, reassign)
+  | .ok (c, dst, dg, did) => initSrc c reassign src dst dg did
 
 def initVars (a : Arch) : Ctx → Nat → List (FuncValue × Option FuncValue) → Except String (Ctx × Nat)
   | c, re, [] => .ok (c, re)
